@@ -33,8 +33,36 @@ META = {
 ORDERING = ("<", "<=", ">", ">=")
 
 
+def _selector_closure(repo):
+    """ids of the functions of table.py reachable (by name) from the row-selection entry points"""
+    m = repo.module("table")
+    fns = {}
+    for name, fn in m.functions.items():
+        fns.setdefault(name, []).append(fn)
+    for c in m.classes.values():
+        for name, fn in c.methods.items():
+            fns.setdefault(name, []).append(fn)
+    todo = []
+    for cname, meth in (("_RowView", "__getitem__"), ("Indices", "__getitem__"), ("Mask", "__getitem__"), ("Table", "_get_row_indices"),
+                        ("_RowView", "_make_view"), ("Table", "_select_rows")):
+        if cname in m.classes and meth in m.classes[cname].methods:
+            todo.append(m.classes[cname].methods[meth])
+    seen = set()
+    while todo:
+        fn = todo.pop()
+        if id(fn) in seen:
+            continue
+        seen.add(id(fn))
+        for c in A.calls(fn):
+            nm = c.func.attr if isinstance(c.func, ast.Attribute) else c.func.id if isinstance(c.func, ast.Name) else None
+            if nm and nm.startswith("_") and not nm.startswith("__"):
+                todo.extend(fns.get(nm, []))
+    return seen
+
+
 def _none_operands(col, rule="C08.R1"):
-    """whole package: a name known to be None (by the enclosing branch condition) used as operand of <,<=,>,>=,+,-,*,/"""
+    """row-selection code (closure of the selector entry points): a name known to be None (by the enclosing branch condition)
+    used as operand of <,<=,>,>=,+,-,*,/"""
     repo = col.repo
     nfun = 0
     hits = 0
@@ -79,7 +107,10 @@ def _none_operands(col, rule="C08.R1"):
                                  "a name that the branch condition proves to be None is not used as an operand of an ordering "
                                  "comparison or arithmetic (TypeError at run time)", f"`{A.src(n)}` under a branch where {o.id} is None")
 
+    scope = _selector_closure(repo)
     for m, c, fn in repo.all_functions():
+        if id(fn) not in scope:
+            continue
         nfun += 1
         q = f"{c.name}.{fn.name}" if c else fn.name
         for n in A.walk(fn):
@@ -101,7 +132,7 @@ def _none_operands(col, rule="C08.R1"):
                                  "a value that the branch conditions prove to be None is not used as an operand of an ordering comparison",
                                  f"`{S.show(s_)}` under {[S.show(c) for c in sx.conds(r.nid) if c[:1] == ('cmp',) and c[1] == 'is']}")
     if hits == 0:
-        col.ok(rule, "package#no-definitely-None-operand", "xdeps/", f"no definitely-None operand in {nfun} functions", "")
+        col.ok(rule, "selector#no-definitely-None-operand", "xdeps/table.py", f"no definitely-None operand in the {nfun} functions of the row selector", "")
 
 
 def _selector(col):
